@@ -3,8 +3,9 @@
  *
  * Alphabet: 6 models fitted once in main() (PCA small/large, PLS ny=1 / ny=2,nlv=2 with the optional
  * validation fields filled, CPCA 2 / 3 blocks; data columns scaled 1e-9 .. 1e9) x 2 paths on /dev/shm.
- * Enumerated: ALL write sequences of length 1..3 (quick) / 1..4 (thorough); every Write is followed by a
- * Read of the kind just written into a fresh model and judged.
+ * Enumerated: ALL write sequences of length 1..3 (quick) / 1..4 (thorough) over the 12 operations, thorough
+ * also all sequences of length 5 over 3 models (one per kind) x 2 paths; every Write is followed by a Read of
+ * the kind just written into a fresh model and judged.
  * Oracles (the sentences of the statement):
  *   readback       same dimensions for every matrix/tensor/vector field, every number within
  *                  1e-15*max(1,|v|); empty fields stay empty                     key readback|<kind>|<class>
@@ -347,14 +348,18 @@ static void body(void) {
   static flat G;                       /* read-back model, flattened */
   static double pr[MAXPRED];
   in_setup = 0;
-  int L = vx_thorough() ? 4 : 3;
+  /* quick: lengths 1..3; thorough: 1..4 over the full alphabet plus length 5 (the statement's bound) over
+   * one small model per kind (PCA-small, PLS-small, CPCA-2blocks) x 2 paths = 6^5 histories */
+  static const int SUB[3] = {0, 2, 4};
+  int L = vx_thorough() ? 5 : 3;
   int len = 1 + vx_choose("len-1", L);
+  int sub = len == 5;
   int hist[NPATH][MAXLEN], nh[NPATH] = {0, 0};
   close_leaked_fds(); set_paths(); wipe_paths();
   uint64_t oh = 0x16;
   for (int s = 0; s < len; s++) {
     char lab[16]; snprintf(lab, sizeof lab, "write%d", s);
-    int op = vx_choose(lab, NMODEL * NPATH), mi = op % NMODEL, p = op / NMODEL;
+    int op = vx_choose(lab, sub ? 3 * NPATH : NMODEL * NPATH), mi = sub ? SUB[op % 3] : op % NMODEL, p = sub ? op / 3 : op / NMODEL;
     mdl *a = &M[mi]; int kind = a->kind;
     /* class of this write, from the history of the path */
     int shared = 0, differs = 0;
@@ -451,7 +456,7 @@ int main(int argc, char **argv) {
   char names[600] = ""; size_t l = 0; int tot = 0;
   for (int i = 0; i < NMODEL; i++) { l += (size_t)snprintf(names + l, sizeof names - l, "%s%s[%d numbers]", i ? "; " : "", M[i].name, M[i].F.nv); tot += M[i].F.nv; }
   vx_describe("alphabet", "operations Write(model, path) for 6 models x 2 paths on /dev/shm, each followed by Read of the kind written; models: %s", names);
-  vx_describe("enumeration", "all write sequences of length 1..3 (quick: 12+144+1728) / 1..4 (thorough: +20736), every step judged");
+  vx_describe("enumeration", "all write sequences of length 1..3 (quick: 12+144+1728) / 1..4 (thorough: +20736) over 6 models x 2 paths, thorough also all 6^5=7776 sequences of length 5 over one small model per kind x 2 paths; every step judged");
   vx_describe("oracle", "reference = the in-memory model last written to the path: same dimension signature of every field, every number within 1e-15*max(1,|v|), empty fields empty; same probe prediction (allowance = 4 x first-order propagation of the per-number allowance); deep bitwise hash of the written model unchanged; bytes of the other path's file unchanged");
   vx_set_shard_depth(3);
   vx_expect_outcomes(12);   /* thousands on a healthy tree; low bound because a crashing reader lets a history observe little */
